@@ -87,9 +87,10 @@ def finish(ctx, t0, seed=0, out=print, write=True):
     prop = ctx.prop
     known = [k for k in load_known() if k['property'] == prop and k.get('status') == 'known']
     broken = []
+    any_viol = any(o.status == VIOLATED for o in ctx.obs)
     for rid, floor in ctx.floors.items():
         n = sum(1 for o in ctx.obs if o.rule == rid)
-        if n < floor:
+        if n < floor and not any_viol:   # a violation may legitimately cut a rule's follow-up obligations short
             broken.append('rule %s matched %d instance(s), fewer than the %d confirmed by hand' % (rid, n, floor))
     for o in ctx.obs:
         if o.status == UNDECIDED:
@@ -124,7 +125,7 @@ def finish(ctx, t0, seed=0, out=print, write=True):
     out('%s: %d obligations over %d functions: %d hold, %d violated (%d known), %d undecided'
         % (prop, len(ctx.obs), len(ctx.functions), nh, len(viol), len(matched),
            sum(1 for o in ctx.obs if o.status == UNDECIDED)))
-    code = 2 if broken else (1 if fresh else 0)
+    code = 1 if fresh else (2 if broken else 0)
     if write:
         write_evidence(ctx, t0, seed, viol, matched, fresh, broken)
     return code
